@@ -110,4 +110,16 @@ def opTamper (args : List String) : String :=
       | _ => "reject"
   | _, _, _, _ => "bad-op"
 
+def opEnvelope (args : List String) : String :=
+  match (if args.isEmpty then [""] else args) with
+  | [h] =>
+    match unhex? h with
+    | some bs =>
+      match (evUnmarshal urlNormDriver [] Ev.empty bs).2 with
+      | .ok _ => "accept"
+      | .err => "reject"
+      | .ood => "ood"
+    | none => "bad-op"
+  | _ => "bad-op"
+
 end Psa.Driver
